@@ -493,7 +493,19 @@ func genGbOps(g *Gen, tier string, w *bufio.Writer, salt int, small bool) {
 		if letters == "" {
 			a = "A-"
 		}
-		fmt.Fprintf(w, "gb %s K2 %s %s :: %s\n", c, a, ket, randStream(g, 1+g.Intn(randLen), letters, withEt, g.Chance(1, 10)))
+		stream := randStream(g, 1+g.Intn(randLen), letters, withEt, g.Chance(1, 10))
+		if ket == "E0" && g.Chance(1, 3) {
+			// the time field is the SECOND key column (GROUP BY id, window_end): the trigger's pending keys must still be
+			// handed out by time, whatever the order of the other key columns
+			toks := strings.Fields(stream)
+			for j := 0; j+2 < len(toks); j++ {
+				if len(toks[j]) > 1 && toks[j][0] == 'R' && toks[j][1] >= '2' && toks[j][1] <= '9' {
+					toks[j+1], toks[j+2] = toks[j+2], toks[j+1]
+				}
+			}
+			stream, ket = strings.Join(toks, " "), "E1"
+		}
+		fmt.Fprintf(w, "gb %s K2 %s %s :: %s\n", c, a, ket, stream)
 	}
 	// the plain batch node (SimpleGroupBy) on the same kind of streams
 	if !small {
